@@ -12,7 +12,7 @@ try:
     for p in props:
         t = time.time()
         r = subprocess.run(['./check', p], cwd='/verif', capture_output=True, text=True)
-        lines = [l for l in r.stdout.split('\n') if l.startswith(('VIOLATION', 'UNDECIDED', 'OK', 'KNOWN'))]
+        lines = [l for l in r.stdout.split('\n') if l.startswith(('VIOLATION', 'UNDECIDED', 'OK', 'KNOWN', 'DEGRADED'))]
         res[p] = dict(rc=r.returncode, lines=lines[:4], wall=round(time.time() - t, 1))
         print(p, 'rc=%d' % r.returncode, '%.0fs' % (time.time() - t), ' | '.join(lines[:3])[:300])
 finally:
